@@ -404,6 +404,43 @@ func c12GroupsOn(l *core.Local, p *route.Parser) (bounds string) {
 
 // c12Names: a name belongs to the route that was given it first. Naming a second route the same panics (a
 // registration panic the application may recover from) and changes nothing: the name still builds the first route.
+// c12TwoNames: a route given two names.
+func c12TwoNames(l *core.Local) {
+	// a route given two names: both build its URL from then on, and neither can be given to another route
+	{
+		f := flamego.NewWithLogger(io.Discard)
+		r1 := f.Get("/two/{x}", func() {})
+		r1.Name("first")
+		r1.Name("second")
+		other := f.Get("/other/{x}", func() {})
+		var a, b string
+		pan := func() (pv interface{}) {
+			defer func() { pv = recover() }()
+			a, b = f.URLPath("first", "x", "v"), f.URLPath("second", "x", "v")
+			return nil
+		}()
+		refused := func() (pv interface{}) {
+			defer func() { pv = recover() }()
+			other.Name("first")
+			return nil
+		}()
+		l.Evals++
+		l.Transitions += 4
+		l.Traces++
+		l.NonTrivial++
+		switch {
+		case pan != nil || a != "/two/v" || b != "/two/v":
+			l.Class("mismatch")
+			l.Violate("names/two-names-of-one-route", fmt.Sprintf("a route named first and then second builds %q under the first and %q under the second name (panic %v), expected /two/v twice", a, b, pan), c12Case{Route: "/two/{x}", API: "names"})
+		case refused == nil:
+			l.Class("mismatch")
+			l.Violate("names/duplicate-accepted", "the first of two names of a route could be given to another route", c12Case{Route: "/two/{x}", API: "names"})
+		default:
+			l.Class("names:two-names-of-one-route")
+		}
+	}
+}
+
 func c12Names(r *core.Run) {
 	l := core.NewLocal()
 	routes := []string{"/u/{x}", "/t/{x}/m", "/s", "/w/{x}/?e"}
@@ -449,6 +486,7 @@ func c12Names(r *core.Run) {
 			}
 		}
 	}
+	c12TwoNames(l)
 	r.Merge(l)
 }
 
